@@ -242,6 +242,18 @@ std::string Exec::known_validator_gap(const std::string &bytes, const std::strin
 // C13, white-box: at every step the counters the limits speak about are within the limits
 void Exec::check_limits_whitebox() {
   if (!w.bus_running()) return;
+  if (md.cfg_gen != 0 && !lim_cfg_reloaded) {
+    // the reloaded limits govern from here on; what connections already hold stays, so a limit that was lowered
+    // can legitimately be exceeded by earlier holdings: its counting invariant is switched off (refusals of new
+    // requests are still predicted by the model), raised or unchanged limits keep theirs
+    lim_cfg_reloaded = true;
+    auto sw = [](long &cur, long nxt) { cur = (cur >= 0 && (nxt < 0 || nxt >= cur)) ? nxt : -1; };
+    sw(lim_cfg.max_completed_connections, lim2_cfg.max_completed_connections);
+    sw(lim_cfg.max_names_per_connection, lim2_cfg.max_names_per_connection);
+    sw(lim_cfg.max_match_rules_per_connection, lim2_cfg.max_match_rules_per_connection);
+    sw(lim_cfg.max_connections_per_user, lim2_cfg.max_connections_per_user);
+    counters["probe:limits_reloaded"]++;
+  }
   if (lim_cfg.max_completed_connections >= 0 && w.n_active() > lim_cfg.max_completed_connections)
     fail("oracle:C13:active-connections", "%d registered connections with max_completed_connections=%ld", w.n_active(), lim_cfg.max_completed_connections);
   if (lim_cfg.max_incomplete_connections >= 0 && w.n_incomplete() > lim_cfg.max_incomplete_connections)
@@ -453,6 +465,11 @@ void Exec::step(const Step &s) {
   }
   if (t == "query") {
     std::vector<wire::Value> body;
+    // Outside the fault enumeration a reload is made a point event: everything in flight (handshakes whose
+    // admission depends on the connect rules in force) settles before the request is sent, and the request is
+    // processed before the next step.  A reload racing a handshake is therefore NOT explored.
+    bool settle = s.S(0) == "ReloadConfig" && have_cfg2 && md.cfg_gen == 0 && plan.prop != "C14";
+    if (settle) { w.quiesce(); resolve_choices(); }
     if (s.S(0) == "ReloadConfig" && have_cfg2 && md.cfg_gen == 0) {
       w.rewrite_config(cfg2_xml);
       md.has_next_cfg = true;
@@ -464,6 +481,7 @@ void Exec::step(const Step &s) {
     wire::Msg m = driver_call(ci, s.S(0), body);
     send_msg(ci, m, s.N(0, -1));
     note("c" + std::to_string(ci) + ":" + s.S(0) + "(" + s.S(1) + ")");
+    if (settle) { w.quiesce(); resolve_choices(); }
     return;
   }
   if (t == "becomemonitor") {
@@ -1213,8 +1231,13 @@ void Exec::setup() {
     have_cfg2 = true;
     bw::BusLimits l2 = lim;
     lim2_model = md.lim;
+    if (plan.C("reload.lim.replies", -2) != -2) { l2.max_replies_per_connection = plan.C("reload.lim.replies", -1); lim2_model.max_replies_per_connection = l2.max_replies_per_connection >= 0 ? l2.max_replies_per_connection : bm::Limits().max_replies_per_connection; }
+    if (plan.C("reload.lim.completed", -2) != -2) { l2.max_completed_connections = plan.C("reload.lim.completed", -1); lim2_model.max_completed_connections = l2.max_completed_connections >= 0 ? l2.max_completed_connections : bm::Limits().max_completed_connections; }
+    if (plan.C("reload.lim.per_user", -2) != -2) { l2.max_connections_per_user = plan.C("reload.lim.per_user", -1); lim2_model.max_connections_per_user = l2.max_connections_per_user >= 0 ? l2.max_connections_per_user : bm::Limits().max_connections_per_user; }
+    lim2_cfg = l2;
     if (plan.C("reload.lim.rules", -2) != -2) { l2.max_match_rules_per_connection = plan.C("reload.lim.rules", -1); lim2_model.max_match_rules_per_connection = l2.max_match_rules_per_connection >= 0 ? l2.max_match_rules_per_connection : bm::Limits().max_match_rules_per_connection; }
     if (plan.C("reload.lim.names", -2) != -2) { l2.max_names_per_connection = plan.C("reload.lim.names", -1); lim2_model.max_names_per_connection = l2.max_names_per_connection >= 0 ? l2.max_names_per_connection : bm::Limits().max_names_per_connection; }
+    lim2_cfg = l2;
     std::string p2 = bw::kAllowAllPolicy;
     if (!plan.CS("reload.policy.spec").empty()) {
       if (!pol::decode(plan.CS("reload.policy.spec"), &policy2)) core::harness_error("bad reload.policy.spec in plan");
